@@ -37,6 +37,8 @@ def quote_sq(s):
 
 def render_str(s, rng=None, style=None):
     """one string token in one of the lexical forms that denote exactly s"""
+    if s.startswith("$R"):
+        return '"' + s + '"'      # a path under the scratch root: substituted by the driver before parsing
     styles = ["dq"]
     if BARE_OK.match(s):
         styles.append("bare")
